@@ -138,7 +138,7 @@ class Ref:
         return (info['slug'], info['key'])
 
     def persists(self, k, name):
-        return self.ev(k)[name]['data'] != 'mem'
+        return self.ev(k)[name]['data'] not in ('mem', 'memlen')
 
     def drop_chains(self):
         self.chains = []
